@@ -34,7 +34,12 @@ def failsQuietly {S : Type} : Tree AEv Quest (Leaf S) → Bool
 
 /-- A question whose two outcomes behave identically is irrelevant: drop it (bottom-up). -/
 def collapse {L : Type} [DecidableEq L] : Tree AEv Quest L → Tree AEv Quest L
-  | .emit a k => .emit a (collapse k)
+  | .emit a k =>
+      -- (two raise markers in a row — an error inside the handler of another — delimit the same pending
+      --  actions as one: without this, branches that differ only in the number of markers do not collapse)
+      match a, collapse k with
+      | .raised, .emit .raised k' => .emit .raised k'
+      | a, k' => .emit a k'
   | .ask q kt kf =>
       let t := collapse kt
       let f := collapse kf
@@ -111,8 +116,16 @@ def jointF : Nat → Tree AEv Quest (Leaf S) → Tree AEv Quest (Leaf T) → Opt
     | .leaf l, t => some (t.paths.map fun p => ⟨l.cfg, p.2.cfg, p.1, false⟩)
     | .emit a k, .leaf l => some ((Tree.emit a k).paths.map fun p => ⟨p.2.cfg, l.cfg, p.1, true⟩)
     | .ask q kt kf, .leaf l => some ((Tree.ask q kt kf).paths.map fun p => ⟨p.2.cfg, l.cfg, p.1, true⟩)
-    | .emit _ _, .ask _ _ _ => viaRaise
-    | .ask _ _ _, .emit _ _ => viaRaise
+    -- one side asks a question the other (after `collapse`) does not care about: whatever the answer, the
+    -- pair goes on with that branch against the same tree of the other side
+    | .emit _ _, .ask _ kt' kf' =>
+        match jointF fuel tA kt', jointF fuel tA kf' with
+        | some l1, some l2 => some (l1 ++ l2)
+        | _, _ => viaRaise
+    | .ask _ kt kf, .emit _ _ =>
+        match jointF fuel kt tB, jointF fuel kf tB with
+        | some l1, some l2 => some (l1 ++ l2)
+        | _, _ => viaRaise
 
 def retHaltS {S : Type} : Tree AEv Quest (Leaf S) := .emit (.ret "FAIL") (.leaf .halt)
 def retHaltT {T : Type} : Tree AEv Quest (Leaf T) := .emit (.ret "FAIL") (.leaf .halt)
